@@ -703,6 +703,10 @@ kastore_find_item(kastore_t *self, const char *key, size_t key_len, kaitem_t **i
         ret = KAS_ERR_NO_MEMORY;
         goto out;
     }
+    if (self->num_items == 0) {
+        /* An empty store has no item array: bsearch must not be given NULL */
+        goto out;
+    }
     memcpy(search.key, key, key_len);
     *item = bsearch(
         &search, self->items, self->num_items, sizeof(kaitem_t), compare_items);
